@@ -1,10 +1,10 @@
 #!/bin/bash
 # Run one check against a *copy* of /repo with a seeded patch applied, without touching /repo
 # or /verif (so background runs that read /repo are not disturbed).
-# usage: test_seed_isolated.sh <patch.diff> <PROPERTY> [tier]
+# usage: [INST=<suffix>] test_seed_isolated.sh <patch.diff> <PROPERTY> [tier]   (INST: an independent instance, for running several at once)
 PATCH=$1; PROP=$2; TIER=${3:-quick}
 set -e
-M=/tmp/repo-mut; V=/tmp/vdev
+I=${INST:-}; M=/tmp/repo-mut$I; V=/tmp/vdev$I; T=/tmp/vdev-target$I
 if [ ! -d $M ]; then git -C /repo worktree add --detach $M HEAD -q; fi
 git -C $M checkout -q --detach $(git -C /repo rev-parse HEAD); git -C $M checkout -- . ; git -C $M clean -fdq -e target
 git -C $M apply "$PATCH"
@@ -15,10 +15,10 @@ sed -i "s#\"/repo/src/smallvec.rs\"#\"$M/src/smallvec.rs\"#" $V/kani/src/lib.rs
 sed -i "s#/repo/Cargo.lock#$M/Cargo.lock#" $V/tools/kani_run.py
 set +e
 cd $V
-export HPBF_REPO=$M SYMX_BIN=/tmp/vdev-target/debug/symx
+export HPBF_REPO=$M SYMX_BIN=$T/debug/symx
 # reuse one target dir across invocations
-mkdir -p $V/symx/.cargo; printf '[build]\nrustflags = ["--cfg", "hpbf_verif"]\ntarget-dir = "/tmp/vdev-target"\n[net]\noffline = true\n' > $V/symx/.cargo/config.toml
-sed -i 's#\$ROOT/symx/target/debug/symx#/tmp/vdev-target/debug/symx#g; s#\$ROOT/symx/target/release/symx#/tmp/vdev-target/release/symx#g' $V/check
+mkdir -p $V/symx/.cargo; printf '[build]\nrustflags = ["--cfg", "hpbf_verif"]\ntarget-dir = "'$T'"\n[net]\noffline = true\n' > $V/symx/.cargo/config.toml
+sed -i "s#\\\$ROOT/symx/target/debug/symx#$T/debug/symx#g; s#\\\$ROOT/symx/target/release/symx#$T/release/symx#g" $V/check
 VERIF_THREADS=${VERIF_THREADS:-8} ./check $PROP $TIER > $V/scratch-$PROP.out 2>&1
 rc=$?
 echo "$PROP exit $rc :: $(grep -c '^VIOLATION' $V/scratch-$PROP.out) violation line(s) :: $(grep -E '^VIOLATION' -A1 $V/scratch-$PROP.out | sed -n 2p | cut -c1-220) :: $(tail -n 1 $V/scratch-$PROP.out | cut -c1-200)"
